@@ -452,6 +452,40 @@ theorem C07_showRows (o : AclObj) (i : Nat) (r : Rule) :
       | zero => exact absurd hk this
       | succ k => simp [he]
 
+/-! ### verdicts depend on the slots and the implicit action only -/
+
+/-- sequences made of verdict requests and `max_acl_rules` assignments -/
+def onlyChecksAndSetMax : List Op → Bool
+  | [] => true
+  | .check _ :: rest => onlyChecksAndSetMax rest
+  | .setMax _ :: rest => onlyChecksAndSetMax rest
+  | _ :: _ => false
+
+/-- Neither the hit counters (however many verdicts were asked before) nor `max_acl_rules` influence a verdict: after any
+number of verdict requests and `max_acl_rules` assignments a packet gets the verdict and the decider it would have got at
+once. -/
+theorem C07_obj_verdict_stable (o : AclObj) (ops : List Op) (p : Packet) (h : onlyChecksAndSetMax ops = true) :
+    ((o.run ops).1.isPermitted p).1 = (o.isPermitted p).1 ∧ ((o.run ops).1.isPermitted p).2.1 = (o.isPermitted p).2.1 := by
+  induction ops generalizing o with
+  | nil => exact ⟨rfl, rfl⟩
+  | cons op rest ih =>
+    rw [run_cons]
+    cases op with
+    | check q =>
+      have hr : onlyChecksAndSetMax rest = true := by simpa [onlyChecksAndSetMax] using h
+      obtain ⟨i1, i2⟩ := ih (o.step (.check q)).1 hr
+      have hs := C07_verdict_stable o.core p q
+      simp only at hs
+      exact ⟨i1.trans hs.1, i2.trans hs.2⟩
+    | setMax n =>
+      have hr : onlyChecksAndSetMax rest = true := by simpa [onlyChecksAndSetMax] using h
+      exact ih (o.step (.setMax n)).1 hr
+    | add r pos => simp [onlyChecksAndSetMax] at h
+    | remove pos => simp [onlyChecksAndSetMax] at h
+    | setImplicit a => simp [onlyChecksAndSetMax] at h
+
+example : onlyChecksAndSetMax [.check exPkt, .setMax 3, .check exPkt] = true := by decide
+
 /-! ### the lists of one device are independent -/
 
 /-- the operations of a device trace that address list `j`, in order -/
